@@ -4,6 +4,7 @@ import Dmn.Lemmas.DecDiv
 import Dmn.Lemmas.DecIntegral
 import Dmn.Lemmas.DecSqrt
 import Dmn.Lemmas.DecParity
+import Dmn.Lemmas.DecModulo
 
 /-!
 # C02 — FEEL numbers compute as IEEE 754-2008 decimal128 (34 digits, half-even)
@@ -233,7 +234,7 @@ example : D128.floor ⟨true, 5, -1⟩ = ⟨true, 1, 0⟩ ∧ D128.ceiling ⟨tr
 
 /-- FEEL `decimal(a, scale)` for a scale in the range FEEL admits: the multiple of `10^(-scale)`
 nearest to `a`, ties to the even multiple; `NaN` exactly when that needs more than 34 digits -/
-theorem rescale_correct (a : D128) (scale : Int) (hlo : -6111 ≤ scale) (hhi : scale < 6176) :
+theorem rescale_correct (a : D128) (scale : Int) (hlo : -6111 ≤ scale) (hhi : scale ≤ 6176) :
     RescaleSpec a scale (D128.rescale a scale) :=
   rescale_spec a scale (by unfold eTiny; omega) (by unfold eMax; omega)
 
@@ -253,11 +254,89 @@ example : D128.sqrt ⟨false, 4000, -3⟩ = .fin ⟨false, 200, -2⟩ := by deci
 
 /-! ## modulo, odd, even -/
 
-/-- FEEL `modulo` is, literally, `a − b·floor(a / b)` with every step rounded (and reduced) -/
+/-- what the code computes (`core.rs:687`, `number.rs:328`): `a − b·floor(a / b)` with *every* step
+rounded to 34 digits (and reduced).  This is the shape of the model, not the specification: the
+specification is `ModuloSpec` (`Model/DecSpec.lean`), the mathematical modulo rounded once. -/
 theorem modulo_spec (a b : D128R) :
     FNum.modulo a b = FNum.sub a (FNum.mul b (FNum.floor (FNum.div a b))) := rfl
 
 example : FNum.modulo (.fin ⟨true, 12, 0⟩) (.fin ⟨false, 5, 0⟩) = .fin ⟨false, 3, 0⟩ := by decide
+
+-- FULL STATEMENT (not provable of the current code, finding F60-modulo):
+--   theorem modulo_correct (a b : D128) (ha : WF a) (hb : WF b) (hb0 : b.coeff ≠ 0) :
+--     ∃ r, ModuloSpec a b r ∧ FNum.modulo (.fin a) (.fin b) = r.reduce
+-- (`modulo(a, b)` is the correctly rounded 34-digit value of the mathematical `a − b·⌊a/b⌋`.  The
+-- code rounds the quotient before taking its floor and rounds the product: `modulo_counterexample`.)
+
+/-- `modulo(a, b)` is the mathematical modulo `a − b·⌊a/b⌋`, computed exactly and rounded once
+(some representation of the reduced answer meets `ModuloSpec`), **whenever** `modExact a b`: the
+floor of the rounded quotient is the floor of the exact quotient and the product `b·⌊a/b⌋` needs
+no rounding — the exact condition under which the code's formula loses nothing before its last
+step.  Both hold, for instance, whenever `a / b` and `b·⌊a/b⌋` have at most 34 digits. -/
+theorem modulo_correct_partial (a b : D128) (h : modExact a b = true) :
+    ∃ r, ModuloSpec a b r ∧ FNum.modulo (.fin a) (.fin b) = r.reduce := by
+  unfold modExact at h
+  split at h
+  · next f hf =>
+    split at h
+    · next p q hp hq =>
+      simp only [Bool.and_eq_true, decide_eq_true_eq] at h
+      obtain ⟨h1, h2⟩ := h
+      subst h1
+      refine ⟨D128.add a (D128.flip p), addSpec_to_modulo a b p _ h2 (add_correct a (D128.flip p)), ?_⟩
+      unfold FNum.modulo
+      rw [hf, hp]
+      rfl
+    · exact absurd h (by simp)
+  · exact absurd h (by simp)
+
+example : modExact ⟨true, 12, 0⟩ ⟨false, 5, 0⟩ = true ∧ modExact ⟨false, 105, -1⟩ ⟨true, 32, -1⟩ = true ∧
+    modExact ⟨false, 1, 0⟩ ⟨false, 3, -1⟩ = true ∧ modExact ⟨false, 1234567890123456789, 3⟩ ⟨false, 7, -2⟩ = true := by
+  decide +kernel
+
+/-- F60-modulo witness: `modulo(9999999999999999999999999999999999, 2)` is `-1`; the mathematical
+modulo is `1` (exactly representable), and no correctly rounded value of it reduces to `-1`.  The
+quotient `4999999999999999999999999999999999.5` has 35 digits and rounds (half-even) to `5E+33`
+before the floor is taken. -/
+theorem modulo_counterexample :
+    WF ⟨false, 9999999999999999999999999999999999, 0⟩ ∧ WF ⟨false, 2, 0⟩ ∧
+    FNum.modulo (.fin ⟨false, 9999999999999999999999999999999999, 0⟩) (.fin ⟨false, 2, 0⟩) = .fin ⟨true, 1, 0⟩ ∧
+    exactMod ⟨false, 9999999999999999999999999999999999, 0⟩ ⟨false, 2, 0⟩ = 1 ∧
+    modExact ⟨false, 9999999999999999999999999999999999, 0⟩ ⟨false, 2, 0⟩ = false ∧
+    ¬ ∃ r, ModuloSpec ⟨false, 9999999999999999999999999999999999, 0⟩ ⟨false, 2, 0⟩ r ∧
+      FNum.modulo (.fin ⟨false, 9999999999999999999999999999999999, 0⟩) (.fin ⟨false, 2, 0⟩) = r.reduce := by
+  have hm : FNum.modulo (.fin ⟨false, 9999999999999999999999999999999999, 0⟩) (.fin ⟨false, 2, 0⟩) = .fin ⟨true, 1, 0⟩ := by
+    decide +kernel
+  have he : exactMod ⟨false, 9999999999999999999999999999999999, 0⟩ ⟨false, 2, 0⟩ = 1 := by decide +kernel
+  refine ⟨by decide, by decide, hm, he, by decide +kernel, ?_⟩
+  rintro ⟨r, hs, hr⟩
+  rw [hm] at hr
+  unfold ModuloSpec at hs
+  rw [he] at hs
+  simp only [show ¬ ((1 : Int) = 0) by decide, if_false] at hs
+  cases r with
+  | nan => exact hs
+  | inf s => exact absurd hs.2 (by decide +kernel)
+  | fin d =>
+    have hn : d.neg = false := by simpa using hs.1
+    have : (D128.reduce d).neg = d.neg := by
+      unfold D128.reduce
+      split <;> rfl
+    have h2 : (D128.reduce d).neg = true := by
+      have := congrArg (fun x => match x with | D128R.fin y => y.neg | _ => false) hr
+      simpa [D128R.reduce] using this.symm
+    rw [this, hn] at h2
+    exact absurd h2 (by decide)
+
+/-- second witness (a non-integer divisor): `modulo(2999999999999999999999999999999999, 0.3)` is `0`;
+the mathematical modulo is `0.2` -/
+theorem modulo_counterexample_fraction :
+    FNum.modulo (.fin ⟨false, 2999999999999999999999999999999999, 0⟩) (.fin ⟨false, 3, -1⟩) = .fin ⟨false, 0, 0⟩ ∧
+    exactMod ⟨false, 2999999999999999999999999999999999, 0⟩ ⟨false, 3, -1⟩ = 2 ∧
+    min (⟨false, 2999999999999999999999999999999999, 0⟩ : D128).exp (⟨false, 3, -1⟩ : D128).exp = -1 ∧
+    ModuloSpec ⟨false, 2999999999999999999999999999999999, 0⟩ ⟨false, 3, -1⟩ (.fin ⟨false, 2, -1⟩) ∧
+    ¬ ModuloSpec ⟨false, 2999999999999999999999999999999999, 0⟩ ⟨false, 3, -1⟩ (.fin ⟨false, 0, 0⟩) := by
+  decide +kernel
 
 /-- `odd` and `even` speak about the value, whatever the exponent (after fix 5501a2e, which
 repaired F21 `even(1E+40) = false` and F22 `odd(1.0) = false`): `odd a` iff the value is an odd
